@@ -8,7 +8,8 @@ hypotheses H-zlib (`Spec.Zlib.HDeflate`, `Spec.Zlib.HInflate`).
 Status on the current tree.  The full-strength statements `WriteTransparent`, `ReadTransparent`
 and `FreeReleasesEverything` are FALSE of the faithful model; each is refuted below by a concrete
 witness the kernel evaluates, and every witness is replayed on the real code by
-corpus/C20/*.ops (findings D22, D23, D30 on the write side, D24, D32 on the read side, D31, D8).
+corpus/C20/*.ops (findings D22, D23, D30 on the write side, D24, D32, D33 on the read side, D31,
+D8).
 What does hold is proved as `…_partial` with the excluding hypotheses named in the docstrings.
 
 `enabled_only_after_compressed` (compression is switched on only by `<compressed/>`, followed by a
@@ -143,36 +144,41 @@ theorem spurious_disconnect_on_empty_send : ¬ NoSpuriousDisconnect toyA := by
 
 /-- FULL STRENGTH (false on the current tree).  For every codec satisfying H-zlib whose inflate
     reports no error (a healthy stream), however the compressed bytes are cut into non-empty
-    fragments: the connection stays up and the parser is fed exactly the plaintext the received
-    bytes stand for. -/
+    fragments: the connection stays up and, once the application's loop has drained the socket
+    after the last fragment, the parser has been fed exactly the plaintext the received bytes
+    stand for. -/
 def ReadTransparent (C : Codec) (HI : HInflate C) : Prop :=
   (∀ i inp room, (C.inflate i inp room).2.2.2 = Gen.Zl.zOk ∨
       (C.inflate i inp room).2.2.2 = Gen.Zl.zBufError) →
-  ∀ (dontReset : Bool) (fuel : Nat) (frags : List Bytes), (∀ f ∈ frags, f ≠ []) →
-    (rxAll fuel (init C dontReset) frags).1.diverged = false →
-      (rxAll fuel (init C dontReset) frags).1.connected = true ∧
-      (rxAll fuel (init C dontReset) frags).2 = HI.plain frags.flatten
+  ∀ (dontReset : Bool) (wfuel fuel : Nat) (frags : List Bytes), (∀ f ∈ frags, f ≠ []) →
+    (rxAll wfuel fuel (init C dontReset) frags).1.diverged = false →
+      (rxAll wfuel fuel (init C dontReset) frags).1.connected = true ∧
+      (rxAll wfuel fuel (init C dontReset) frags).2 = HI.plain frags.flatten
 
-/-- What holds (any codec satisfying H-zlib, ANY fragmentation, fragments of any size): if the
-    event loop is still connected after the last fragment and the last inflate call returned with
-    room left in the caller's buffer (`readDone`), the parser received exactly the plaintext of
+/-- What holds (any codec satisfying H-zlib, ANY fragmentation, fragments of any size, whole loop
+    iterations incl. their send halves): if the event loop is still connected after the last
+    fragment, `compression_pending` reports nothing and the last inflate call returned with room
+    left in the caller's buffer (`readDone`), the parser received exactly the plaintext of
     everything that arrived.
 
     Missing with respect to `ReadTransparent`:
     * "still connected" is a hypothesis: a read that yields no plaintext returns 0, which
       xmpp_run_once treats as "closed by remote host" (D24);
+    * "nothing pending" is a hypothesis: xmpp_run_once returns when select() reports no event,
+      before it asks `intf->pending`; input left in the decompression buffer (a fragment that
+      inflates to more than 4096 bytes) waits for the next socket event (D33);
     * `readDone`: when inflate fills the 4096-byte buffer with the last input byte, the rest of
       the plaintext stays inside zlib and `compression_pending` reports nothing (D32). -/
-theorem read_transparent_partial {C : Codec} (HI : HInflate C) (dontReset : Bool) (fuel : Nat)
+theorem read_transparent_partial {C : Codec} (HI : HInflate C) (dontReset : Bool) (wfuel fuel : Nat)
     (frags : List Bytes)
-    (hconn : (rxAll fuel (init C dontReset) frags).1.connected = true)
-    (hdiv : (rxAll fuel (init C dontReset) frags).1.diverged = false)
-    (hdone : (rxAll fuel (init C dontReset) frags).1.readDone = true) :
-    (rxAll fuel (init C dontReset) frags).2 = HI.plain frags.flatten :=
-  Lemmas.Compression.read_ok HI dontReset fuel frags ⟨hconn, hdiv⟩ hdone
+    (hconn : (rxAll wfuel fuel (init C dontReset) frags).1.connected = true)
+    (hdiv : (rxAll wfuel fuel (init C dontReset) frags).1.diverged = false)
+    (hpend : pending (rxAll wfuel fuel (init C dontReset) frags).1 = false)
+    (hdone : (rxAll wfuel fuel (init C dontReset) frags).1.readDone = true) :
+    (rxAll wfuel fuel (init C dontReset) frags).2 = HI.plain frags.flatten :=
+  Lemmas.Compression.read_ok HI dontReset wfuel fuel frags ⟨hconn, hdiv⟩ hpend hdone
 
-/-- input that inflate has not consumed yet is reported by `compression_pending`, so the event
-    loop comes back for it without waiting for the socket -/
+/-- input that inflate has not consumed yet is reported by `compression_pending` -/
 theorem pending_reports_buffered_input {C : Codec} (s : St C) (rest : Bytes) :
     pending { s with inPend := some rest } = true := rfl
 
@@ -181,17 +187,32 @@ set_option maxRecDepth 200000 in
     the event loop disconnects -/
 theorem read_transparent_fails_on_empty_yield : ¬ ReadTransparent toyA toyA_inflate := by
   intro h
-  have h1 := (h toyA_inflate_never_errors false 10 [[0x78], [0x61]] (by decide) (by decide +kernel)).1
+  have h1 := (h toyA_inflate_never_errors false 10 10 [[0x78], [0x61]] (by decide) (by decide +kernel)).1
   exact absurd h1 (by decide +kernel)
 
 set_option maxRecDepth 200000 in
-/-- D32: 3000 bytes that inflate to 6000: the first 4096 are delivered, the input is used up,
-    nothing is pending, 1904 bytes stay behind -/
+/-- D32: 3000 bytes that inflate to 6000, all input taken by the first inflate call: the first
+    4096 are delivered, nothing is pending, 1904 bytes stay behind inside the codec -/
 theorem read_transparent_fails_on_full_buffer : ¬ ReadTransparent toyB toyB_inflate := by
   intro h
-  have h1 := (h toyB_inflate_never_errors false 10 [List.replicate 3000 0x61] (by decide)
+  have h1 := (h toyB_inflate_never_errors false 10 10 [List.replicate 3000 0x61] (by decide)
     (by decide +kernel)).2
   exact absurd h1 (by decide +kernel)
+
+set_option maxRecDepth 200000 in
+/-- D33: 3000 bytes that inflate to 6000, inflate stopping when the buffer is full: 952 input
+    bytes stay in the decompression buffer, `pending` says so, but with the socket drained the
+    event loop never asks -/
+theorem read_transparent_fails_on_pending_input : ¬ ReadTransparent toyC toyC_inflate := by
+  intro h
+  have h1 := (h toyC_inflate_never_errors false 10 10 [List.replicate 3000 0x61] (by decide)
+    (by decide +kernel)).2
+  exact absurd h1 (by decide +kernel)
+
+set_option maxRecDepth 200000 in
+/-- … and in that state `compression_pending` does report the input -/
+example : pending (rxAll 10 10 (init toyC false) [List.replicate 3000 0x61]).1 = true ∧
+    (rxAll 10 10 (init toyC false) [List.replicate 3000 0x61]).2.length = 4096 := by decide +kernel
 
 theorem not_read_transparent : ¬ ∀ (C : Codec) (HI : HInflate C), ReadTransparent C HI :=
   fun h => read_transparent_fails_on_empty_yield (h toyA toyA_inflate)
@@ -225,6 +246,7 @@ example : HDeflate toyA := toyA_deflate
 example : HInflate toyA := toyA_inflate
 example : HDeflate toyB := toyB_deflate
 example : HInflate toyB := toyB_inflate
+example : HInflate toyC := toyC_inflate
 
 /-- hypotheses of `write_transparent_partial` met by a non-trivial history (three elements, two
     iterations, buffering codec): the server ends up with exactly the submitted stream -/
@@ -249,15 +271,15 @@ example : (run 10 (init toyA false) [.send a5000, .iter []]).net = a5000 ∧
 /-- hypotheses of `read_transparent_partial` met: header and first byte together, then one more
     fragment -/
 example :
-    (rxAll 10 (init toyA false) [[0x78, 0x61], [0x62]]).1.connected = true ∧
-    (rxAll 10 (init toyA false) [[0x78, 0x61], [0x62]]).1.readDone = true ∧
-    (rxAll 10 (init toyA false) [[0x78, 0x61], [0x62]]).2 = [0x61, 0x62] := by decide +kernel
+    (rxAll 10 10 (init toyA false) [[0x78, 0x61], [0x62]]).1.connected = true ∧
+    (rxAll 10 10 (init toyA false) [[0x78, 0x61], [0x62]]).1.readDone = true ∧
+    (rxAll 10 10 (init toyA false) [[0x78, 0x61], [0x62]]).2 = [0x61, 0x62] := by decide +kernel
 
 set_option maxRecDepth 200000 in
-/-- an expanding fragment larger than one read buffer is delivered completely when input remains
-    pending: 2100 bytes → 4200, in two reads -/
+/-- an expanding fragment larger than one read buffer is delivered completely once another
+    fragment wakes the loop up: 2100 bytes → 4200, plus one more byte → 2 -/
 example :
-    (rxAll 10 (init toyB false) [List.replicate 2100 7, [8]]).1.connected = true ∧
-    (rxAll 10 (init toyB false) [List.replicate 2100 7, [8]]).2.length = 4202 := by decide +kernel
+    (rxAll 10 10 (init toyB false) [List.replicate 2100 7, [8]]).1.connected = true ∧
+    (rxAll 10 10 (init toyB false) [List.replicate 2100 7, [8]]).2.length = 4202 := by decide +kernel
 
 end Strophe.C20
